@@ -9,7 +9,9 @@ namespace H263V.Spec.Vlc
 open H263V
 
 /-- `n` bits of `v`, most significant first -/
-def natBits (n v : Nat) : Bits := (List.range n).map fun k => (v / 2 ^ (n - 1 - k)) % 2 == 1
+def natBits : Nat → Nat → Bits
+  | 0, _ => []
+  | n + 1, v => ((v / 2 ^ n) % 2 == 1) :: natBits n v
 
 /-- two's complement `n`-bit field of `v` -/
 def intBits (n : Nat) (v : Int) : Bits := natBits n (if v < 0 then (v + (2 ^ n : Nat)).toNat else v.toNat)
